@@ -127,7 +127,8 @@ irreducible (it is a proper multiple of X) -/
 theorem skipped_multiples_not_irreducible [Fact p.Prime] {m : ℕ} (h0 : m % p = 0) (hne : m ≠ p) :
     ¬ ((digits p m).getLastD 0 = 1 ∧ isIrreducible p (digits p m) = true) := not_cand_of_dvd h0 hne
 
-example : isIrreducible 3 (digits 3 6) = false ∧ isIrreducible 3 (digits 3 3) = true := by decide
+example : digits 3 9 = [0, 0, 1] ∧ isIrreducible 3 (digits 3 9) = false ∧
+    isIrreducible 3 (digits 3 3) = true := by decide
 
 /-- ★ the unbounded searches (`while True`) terminate: monic irreducible polynomials of every degree exist
 over `ZMod p`, so for every argument some number of loop passes suffices -/
